@@ -1098,6 +1098,10 @@ class DesignSpace:
         self.__norm_data_is_computed = True
         if self.__has_current_value:
             self.__common_dtype = self.__get_common_dtype(self.__current_value.values())
+            if self.__common_dtype.kind == "i" and not self.__integer_components.all():
+                # A float variable can take non-integer values
+                # whatever the data type of its current value.
+                self.__common_dtype = self.__FLOAT_DTYPE
         else:
             self.__common_dtype = self.__DEFAULT_COMMON_DTYPE
 
